@@ -264,47 +264,212 @@ Notation TT := (fun _ : str => True).
 Lemma RsS_true : forall items rest, RsS TT items rest.
 Proof. induction items as [|x r IH]; intro rest; cbn [RsS]; [exact I | split; [exact I | apply IH]]. Qed.
 
-Lemma testS pre cond rest : cond_ok cond = true -> parsedS (PRef L_TEST) pre cond (10 :: rest) [TNode L_TEST cond []].
+(** the loop  E ~ E*  of TEST before ANY stop text (a newline, `; then`, `; do`) *)
+Section GenLoopS.
+Variable E : pexp.
+Variable okc' : char -> bool.
+Variable St : str.
+Hypothesis HE_char : forall pos c r, okc' c = true -> is_blank c = false -> EV E AtNon pos (c :: r) (POk (S pos) r []).
+Hypothesis HE_stop : forall pos, EV E AtNon pos St PFail.
+Hypothesis HSt : starts_blank St = false.
+
+Lemma gtail : forall n t pos, (length t <= n)%nat -> forallb okc' t = true -> ends_ok t = true ->
+  EV (PRepTail E) AtNon pos (t ++ St) (POk (pos + length t) St []).
 Proof.
-  intro H. apply parsed_S. eexists. split; [apply test_parses, H|].
-  cbn [map]. rewrite (annotate_node_eq pre cond (10 :: rest)) by reflexivity. rewrite trim_cond by exact H. reflexivity.
+  induction n as [|n IH]; intros t pos Hl Hok He.
+  - destruct t; [|cbn in Hl; lia]. cbn [app length]. rewrite Nat.add_0_r.
+    eapply evals_reptail_stop; [apply skip_none, HSt | apply HE_stop].
+  - destruct t as [|c0 t0].
+    { cbn [app length]. rewrite Nat.add_0_r.
+      eapply evals_reptail_stop; [apply skip_none, HSt | apply HE_stop]. }
+    destruct (span_bl (c0 :: t0)) as [a b] eqn:Es.
+    destruct (span_bl_spec _ _ _ Es) as [Et [Ha Hb]].
+    destruct b as [|c b].
+    { exfalso. rewrite app_nil_r in Et. rewrite Et in He. rewrite all_blank_ends in He; [discriminate| |exact Ha].
+      intro Z. rewrite Z in Et. discriminate. }
+    rewrite Et in *. cbn [starts_blank] in Hb.
+    rewrite forallb_app in Hok. apply andb_prop in Hok as [_ Hok]. cbn [forallb] in Hok. apply andb_prop in Hok as [Hc Hok].
+    rewrite <- app_assoc. cbn [app].
+    change (@nil tree) with ([] ++ [] ++ @nil tree)%list.
+    eapply evals_reptail_step.
+    + apply skip_blanks; [exact Ha | exact Hb].
+    + apply HE_char; assumption.
+    + lia.
+    + rewrite app_length in *. cbn [length] in *.
+      replace (pos + (length a + S (length b)))%nat with (S (pos + length a) + length b)%nat by lia.
+      apply IH; [lia | exact Hok |].
+      destruct b as [|c1 b1]; [reflexivity|].
+      rewrite ends_ok_app_blank in He by (assumption || discriminate).
+      rewrite ends_ok_tail in He by discriminate. exact He.
+Qed.
+
+Lemma gchars c t pos : okc' c = true -> is_blank c = false -> forallb okc' t = true -> ends_ok (c :: t) = true ->
+  EV (PRep E) AtNon pos ((c :: t) ++ St) (POk (pos + length (c :: t)) St []).
+Proof.
+  intros Hc Hb Hok He. cbn [app length].
+  change (@nil tree) with ([] ++ @nil tree)%list.
+  eapply evals_rep_some; [apply HE_char; assumption|].
+  replace (pos + S (length t))%nat with (S pos + length t)%nat by lia.
+  apply (gtail (length t)); [lia | exact Hok |].
+  destruct t; [reflexivity|]. rewrite ends_ok_tail in He by discriminate. exact He.
+Qed.
+
+Lemma gskip_rep t pos : forallb okc' t = true -> ends_ok t = true ->
+  exists p1 r1, EV PSkip AtNon pos (t ++ St) (POk p1 r1 []) /\
+                EV (PRep E) AtNon p1 r1 (POk (pos + length t) St []).
+Proof.
+  intros Hok He. destruct (span_bl t) as [a b] eqn:Es.
+  destruct (span_bl_spec _ _ _ Es) as [Et [Ha Hb]]. subst t.
+  destruct b as [|c b].
+  - rewrite app_nil_r in *. destruct a as [|a0 a].
+    + exists pos, St. cbn [app length]. rewrite Nat.add_0_r. split.
+      * apply skip_none, HSt.
+      * apply evals_rep_none, HE_stop.
+    + rewrite all_blank_ends in He; [discriminate|discriminate|exact Ha].
+  - exists (pos + length a)%nat, ((c :: b) ++ St). split.
+    + rewrite <- app_assoc. apply skip_blanks; [exact Ha | exact Hb].
+    + rewrite forallb_app in Hok. apply andb_prop in Hok as [_ Hok]. cbn [forallb] in Hok.
+      apply andb_prop in Hok as [Hc Hok]. cbn [starts_blank] in Hb.
+      rewrite ends_ok_app_blank in He by (assumption || discriminate).
+      rewrite app_length. rewrite Nat.add_assoc.
+      apply (gchars c b (pos + length a) Hc Hb Hok He).
+Qed.
+
+Lemma gplus_chars c t pos : okc' c = true -> is_blank c = false -> forallb okc' t = true -> ends_ok (c :: t) = true ->
+  EV (PSeq E (PRep E)) AtNon pos ((c :: t) ++ St) (POk (pos + length (c :: t)) St []).
+Proof.
+  intros Hc Hb Hok He.
+  assert (He' : ends_ok t = true) by (destruct t; [reflexivity | rewrite ends_ok_tail in He by discriminate; exact He]).
+  destruct (gskip_rep t (S pos) Hok He') as [p1 [r1 [Hs Hr]]].
+  cbn [app length]. replace (pos + S (length t))%nat with (S pos + length t)%nat by lia.
+  change (@nil tree) with ([] ++ [] ++ @nil tree)%list.
+  eapply evals_seq_ok; [apply HE_char; assumption | exact Hs | exact Hr].
+Qed.
+End GenLoopS.
+
+Lemma cond_starts' cond x : cond_ok cond = true -> starts_blank (cond ++ x) = false.
+Proof.
+  intro H. unfold cond_ok in H. apply andb_prop in H as [H _]. apply andb_prop in H as [_ Hs].
+  destruct cond as [|c t]; [discriminate|]. cbn. apply blank_ws. cbn in Hs. apply negb_true_iff in Hs. exact Hs.
+Qed.
+
+Lemma testS2 pre cond St : cond_ok cond = true -> starts_blank St = false -> (forall pos, EV E_test AtNon pos St PFail) ->
+  parsedS (PRef L_TEST) pre cond St [TNode L_TEST cond []].
+Proof.
+  intros H0 HSt Hstop. apply parsed_S.
+  exists [Node L_TEST (length pre) (length pre + length cond) []]. split.
+  - pose proof H0 as H. unfold cond_ok in H. apply andb_prop in H as [H He]. apply andb_prop in H as [Hok Hs].
+    destruct cond as [|c t]; [discriminate|].
+    cbn [starts_nonws] in Hs. apply negb_true_iff in Hs.
+    assert (Hb : is_blank c = false) by (apply blank_ws, Hs).
+    assert (He' : ends_ok (c :: t) = true).
+    { unfold ends_nonws in He. unfold ends_ok. destruct (rev (c :: t)); [reflexivity|].
+      apply negb_true_iff in He. rewrite (blank_ws _ He). reflexivity. }
+    cbn [forallb] in Hok. apply andb_prop in Hok as [Hc Hok].
+    eapply evals_ref_normal_ok; [reflexivity | reflexivity |].
+    apply (gplus_chars E_test okt St Et_char Hstop HSt c t (length pre) Hc Hb Hok He').
+  - cbn [map]. rewrite (annotate_node_eq pre cond St) by reflexivity. rewrite trim_cond by exact H0. reflexivity.
 Qed.
 
 Lemma nlaltS K pre rest : (forall pos r, EV K AtNon pos (10 :: r) (POk (S pos) r [])) -> parsedS K pre [10] rest [].
 Proof. intro H. apply parsed_S. exists []. split; [|reflexivity]. evq (H (length pre) rest). Qed.
 
-Lemma cond_headS R K kw ALT pre cond rest :
+Lemma any_pos e text rest tt : (forall pre, parsedS e pre text rest tt) ->
+  forall pos, exists p r k, EV e AtNon pos (text ++ rest) (POk p r k).
+Proof.
+  intros H pos. destruct (H (repeat 0%N pos)) as [a [b [Ts [_ [_ [E _]]]]]]. rewrite repeat_length in E. eauto.
+Qed.
+
+(** `; then NL` and `; do NL` (one blank after the `;`, as [s_then true] / [s_do true] spell it) *)
+Lemma dummy_thenS pre rest : parsedS (PRef L_DUMMY_THEN) pre (s_then true) rest [].
+Proof.
+  eapply silentS; [reflexivity | reflexivity |].
+  apply (seqS (PStr [59]) (PSeq (PStr [116; 104; 101; 110]) NL) pre [59] [32] ([116; 104; 101; 110] ++ [10]) rest [] []);
+    [apply strS | reflexivity | reflexivity |].
+  apply (seqS' (PStr [116; 104; 101; 110]) NL _ [116; 104; 101; 110] [10] rest [] []);
+    [apply strS | reflexivity | apply nlaltS; intros; apply nl_ok].
+Qed.
+
+Lemma dummy_doS pre rest : parsedS (PRef L_DUMMY_DO) pre (s_do true) rest [].
+Proof.
+  eapply silentS; [reflexivity | reflexivity |].
+  apply (seqS (PStr [59]) (PSeq (PStr [100; 111]) NL) pre [59] [32] ([100; 111] ++ [10]) rest [] []);
+    [apply strS | reflexivity | reflexivity |].
+  apply (seqS' (PStr [100; 111]) NL _ [100; 111] [10] rest [] []);
+    [apply strS | reflexivity | apply nlaltS; intros; apply nl_ok].
+Qed.
+
+Lemma dummy_then_fail_do pos rest : EV (PRef L_DUMMY_THEN) AtNon pos (s_do true ++ rest) PFail.
+Proof.
+  ref_s. change (s_do true ++ rest) with ([59] ++ [32] ++ ([100; 111; 10] ++ rest)).
+  eapply evals_seq_fail_b; [apply evals_str_ok, strip_prefix_app_some | apply (skip_blanks [32]); reflexivity |].
+  apply evals_seq_fail, evals_str_fail. reflexivity.
+Qed.
+
+Lemma Et_stop_then pos rest : EV E_test AtNon pos (s_then true ++ rest) PFail.
+Proof.
+  unfold E_test. apply evals_seq_fail.
+  destruct (any_pos _ _ rest _ (fun pre => dummy_thenS pre rest) pos) as [p [r [k H]]].
+  eapply evals_not_fail. unfold STOPSET. apply evals_alt_r.
+  - change (s_then true ++ rest) with (59 :: ([32; 116; 104; 101; 110; 10] ++ rest)). apply nl_fail. reflexivity.
+  - apply evals_alt_l. exact H.
+Qed.
+
+Lemma Et_stop_do pos rest : EV E_test AtNon pos (s_do true ++ rest) PFail.
+Proof.
+  unfold E_test. apply evals_seq_fail.
+  destruct (any_pos _ _ rest _ (fun pre => dummy_doS pre rest) pos) as [p [r [k H]]].
+  eapply evals_not_fail. unfold STOPSET. apply evals_alt_r.
+  - change (s_do true ++ rest) with (59 :: ([32; 100; 111; 10] ++ rest)). apply nl_fail. reflexivity.
+  - apply evals_alt_r; [apply dummy_then_fail_do | exact H].
+Qed.
+
+(** the end of a head in either spelling *)
+Lemma then_altS sp pre rest : parsedS (PAlt (PRef L_DUMMY_THEN) NL) pre (s_then sp) rest [].
+Proof. destruct sp; [apply altS_l, dummy_thenS | apply nlaltS; intros; apply then_do_fail]. Qed.
+Lemma do_altS sp pre rest : parsedS (PAlt (PRef L_DUMMY_DO) NL) pre (s_do sp) rest [].
+Proof. destruct sp; [apply altS_l, dummy_doS | apply nlaltS; intros; apply then_do_fail]. Qed.
+Lemma then_stop sp pos rest : EV E_test AtNon pos (s_then sp ++ rest) PFail.
+Proof. destruct sp; [apply Et_stop_then | exact (Et_stop pos rest)]. Qed.
+Lemma do_stop sp pos rest : EV E_test AtNon pos (s_do sp ++ rest) PFail.
+Proof. destruct sp; [apply Et_stop_do | exact (Et_stop pos rest)]. Qed.
+Lemma then_sb sp rest : starts_blank (s_then sp ++ rest) = false. Proof. destruct sp; reflexivity. Qed.
+Lemma do_sb sp rest : starts_blank (s_do sp ++ rest) = false. Proof. destruct sp; reflexivity. Qed.
+
+Lemma cond_headS R K kw ALT cl pre cond rest :
   lookup R (g_rules l_grammar) = Some (MNormal, PSeq (PRef K) (PSeq (PRef L_TEST) ALT)) -> opt_eqb (g_ws l_grammar) R = false ->
   lookup K (g_rules l_grammar) = Some (MSilent, PStr kw) -> opt_eqb (g_ws l_grammar) K = false ->
-  (forall pos r, EV ALT AtNon pos (10 :: r) (POk (S pos) r [])) ->
+  (forall pre rest, parsedS ALT pre cl rest []) ->
+  (forall pos rest, EV E_test AtNon pos (cl ++ rest) PFail) ->
+  (forall rest, starts_blank (cl ++ rest) = false) ->
   cond_ok cond = true ->
-  parsedS (PRef R) pre (kw ++ cond ++ [10]) rest [TNode R (trim (kw ++ cond ++ [10])) [TNode L_TEST cond []]].
+  parsedS (PRef R) pre (kw ++ cond ++ cl) rest [TNode R (trim (kw ++ cond ++ cl)) [TNode L_TEST cond []]].
 Proof.
-  intros HR HwR HK HwK Halt Hc.
-  apply (refS R _ pre (kw ++ cond ++ [10]) rest ([] ++ [TNode L_TEST cond []] ++ []) HR HwR).
+  intros HR HwR HK HwK Halt Hstop Hsb Hc.
+  apply (refS R _ pre (kw ++ cond ++ cl) rest ([] ++ [TNode L_TEST cond []] ++ []) HR HwR).
   apply seqS'.
   - eapply silentS; [exact HK | exact HwK | apply strS].
-  - rewrite <- app_assoc. apply cond_starts, Hc.
-  - apply seqS'; [exact (testS _ cond rest Hc) | reflexivity | apply nlaltS, Halt].
+  - rewrite <- app_assoc. apply cond_starts', Hc.
+  - apply seqS'; [apply testS2; [exact Hc | apply Hsb | intro; apply Hstop] | apply Hsb | apply Halt].
 Qed.
 
-Definition while_head_t (cond : str) := TNode L_WHILE_HEAD (trim (s_while ++ cond ++ [10])) [TNode L_TEST cond []].
-Definition if_head_t (cond : str) := TNode L_IF_HEAD (trim (s_if ++ cond ++ [10])) [TNode L_TEST cond []].
+Definition while_head_t (sp : bool) (cond : str) := TNode L_WHILE_HEAD (trim (s_while ++ cond ++ s_do sp)) [TNode L_TEST cond []].
+Definition if_head_t (sp : bool) (cond : str) := TNode L_IF_HEAD (trim (s_if ++ cond ++ s_then sp)) [TNode L_TEST cond []].
 
-Lemma while_headS cond : cond_ok cond = true ->
-  forall pre rest, parsedS (PRef L_WHILE_HEAD) pre (s_while ++ cond ++ [10]) rest [while_head_t cond].
+Lemma while_headS sp cond : cond_ok cond = true ->
+  forall pre rest, parsedS (PRef L_WHILE_HEAD) pre (s_while ++ cond ++ s_do sp) rest [while_head_t sp cond].
 Proof.
   intros H pre rest.
-  apply (cond_headS L_WHILE_HEAD L_KW_WHILE s_while (PAlt (PRef L_DUMMY_DO) NL)); try reflexivity; [|exact H].
-  intros pos r. apply then_do_fail.
+  apply (cond_headS L_WHILE_HEAD L_KW_WHILE s_while (PAlt (PRef L_DUMMY_DO) NL) (s_do sp)); try reflexivity;
+    [apply do_altS | apply do_stop | apply do_sb | exact H].
 Qed.
 
-Lemma if_headS cond : cond_ok cond = true ->
-  forall pre rest, parsedS (PRef L_IF_HEAD) pre (s_if ++ cond ++ [10]) rest [if_head_t cond].
+Lemma if_headS sp cond : cond_ok cond = true ->
+  forall pre rest, parsedS (PRef L_IF_HEAD) pre (s_if ++ cond ++ s_then sp) rest [if_head_t sp cond].
 Proof.
   intros H pre rest.
-  apply (cond_headS L_IF_HEAD L_KW_IF s_if (PAlt (PRef L_DUMMY_THEN) NL)); try reflexivity; [|exact H].
-  intros pos r. apply then_do_fail.
+  apply (cond_headS L_IF_HEAD L_KW_IF s_if (PAlt (PRef L_DUMMY_THEN) NL) (s_then sp)); try reflexivity;
+    [apply then_altS | apply then_stop | apply then_sb | exact H].
 Qed.
 
 Lemma for_varS pre var rest : wfp_var var = true -> parsedS (PRef L_FOR_VAR) pre var (32 :: rest) [TNode L_FOR_VAR var []].
@@ -319,25 +484,24 @@ Proof.
   cbn. apply blank_ws, alnum_not_ws. unfold is_alnum_us. apply orb_prop in Hc as [Hc|Hc]; rewrite Hc; lia.
 Qed.
 
-Definition for_head_t (var words : str) :=
-  TNode L_FOR_HEAD (trim (s_for ++ var ++ s_in ++ words ++ [10]))
-    [TNode L_FOR_INIT (trim (var ++ s_in ++ words ++ [10])) [TNode L_FOR_VAR var []; TNode L_TEST words []]].
+Definition for_head_t (sp : bool) (var words : str) :=
+  TNode L_FOR_HEAD (trim (s_for ++ var ++ s_in ++ words ++ s_do sp))
+    [TNode L_FOR_INIT (trim (var ++ s_in ++ words ++ s_do sp)) [TNode L_FOR_VAR var []; TNode L_TEST words []]].
 
-Lemma for_headS var words : wfp_var var = true -> cond_ok words = true ->
-  forall pre rest, parsedS (PRef L_FOR_HEAD) pre (s_for ++ var ++ s_in ++ words ++ [10]) rest [for_head_t var words].
+Lemma for_headS sp var words : wfp_var var = true -> cond_ok words = true ->
+  forall pre rest, parsedS (PRef L_FOR_HEAD) pre (s_for ++ var ++ s_in ++ words ++ s_do sp) rest [for_head_t sp var words].
 Proof.
   intros Hv Hw pre rest.
-  apply (refS L_FOR_HEAD _ pre (s_for ++ (var ++ [32] ++ ([105; 110] ++ [32] ++ (words ++ [10])))) rest
-           ([] ++ [TNode L_FOR_INIT (trim (var ++ [32] ++ ([105; 110] ++ [32] ++ (words ++ [10]))))
+  apply (refS L_FOR_HEAD _ pre (s_for ++ (var ++ [32] ++ ([105; 110] ++ [32] ++ (words ++ s_do sp)))) rest
+           ([] ++ [TNode L_FOR_INIT (trim (var ++ [32] ++ ([105; 110] ++ [32] ++ (words ++ s_do sp))))
                      ([TNode L_FOR_VAR var []] ++ [] ++ [TNode L_TEST words []] ++ [])]) eq_refl eq_refl).
   apply seqS'.
   - eapply silentS; [reflexivity | reflexivity | apply strS].
   - rewrite <- app_assoc. apply var_starts, Hv.
   - apply (refS L_FOR_INIT _ _ _ _ _ eq_refl eq_refl).
     apply seqS; [exact (for_varS _ var _ Hv) | reflexivity | reflexivity |].
-    apply seqS; [apply strS | reflexivity | rewrite <- app_assoc; apply cond_starts, Hw |].
-    apply seqS'; [exact (testS _ words rest Hw) | reflexivity | apply nlaltS].
-    intros pos r. apply then_do_fail.
+    apply seqS; [apply strS | reflexivity | rewrite <- app_assoc; apply cond_starts', Hw |].
+    apply seqS'; [apply testS2; [exact Hw | apply do_sb | intro; apply do_stop] | apply do_sb | apply do_altS].
 Qed.
 
 Lemma kw_doneS pre rest : parsedS (PRef L_KW_DONE) pre (s_done ++ [10]) rest [].
@@ -434,6 +598,157 @@ Proof.
   apply seqS'; [apply HL | reflexivity | apply kw_fiS].
 Qed.
 
+(** ---- command lines exactly as pest accepts them: a line may START with a keyword word
+        (`fix`, `elsewhere`, `done7`, `else x`, `fi x`); refused are only `if ..`, `for ..`, `else if ..`,
+        `while ..` (keyword + blank) and the bare words `else`, `fi`, `done` ---- *)
+Definition cmd_ok2 (line : str) : bool :=
+  forallb okc line && starts_nonws line && ends_nonws line && negb (starts_kw line).
+
+Lemma strip_prefix_eq p : forall s x, strip_prefix p s = Some x -> s = p ++ x.
+Proof.
+  induction p as [|a p IH]; intros s x H; cbn in H.
+  - injection H as ->. reflexivity.
+  - destruct s as [|c s]; [discriminate|]. destruct (a =? c) eqn:E; [|discriminate].
+    apply N.eqb_eq in E. subst c. cbn. f_equal. apply IH, H.
+Qed.
+
+Lemma ends_ok_app_ne p x : x <> [] -> ends_ok (p ++ x) = ends_ok x.
+Proof.
+  intro H. induction p as [|c p IH]; [reflexivity|]. cbn [app]. rewrite ends_ok_tail; [exact IH|].
+  destruct p; cbn; [exact H | discriminate].
+Qed.
+
+Lemma ends_nonws_ok t : ends_nonws t = true -> ends_ok t = true.
+Proof.
+  unfold ends_nonws, ends_ok. destruct (rev t); [reflexivity|]. intro H. apply negb_true_iff in H.
+  rewrite (blank_ws _ H). reflexivity.
+Qed.
+
+Lemma kw_word_fail kw T line rest pos :
+  forallb (fun c => negb (c =? 10)) kw = true ->
+  (forall pos c r, okc c = true -> EV T AtNon pos (c :: r) PFail) ->
+  str_eqb line kw = false -> forallb okc line = true -> ends_ok line = true ->
+  EV (PSeq (PStr kw) T) AtNon pos (line ++ 10 :: rest) PFail.
+Proof.
+  intros Hkw HT Hne Hok He.
+  destruct (strip_prefix kw line) as [x|] eqn:Ep.
+  - apply strip_prefix_eq in Ep. subst line.
+    assert (Hx : x <> []). { intro Z. subst x. rewrite app_nil_r, str_eqb_refl in Hne. discriminate. }
+    destruct (span_bl x) as [a b] eqn:Es. destruct (span_bl_spec _ _ _ Es) as [Ex [Ha Hb]]. subst x.
+    rewrite ends_ok_app_ne in He by exact Hx.
+    destruct b as [|c b].
+    { rewrite app_nil_r in *. rewrite all_blank_ends in He; [discriminate | exact Hx | exact Ha]. }
+    rewrite !forallb_app in Hok. apply andb_prop in Hok as [_ Hok]. apply andb_prop in Hok as [_ Hok].
+    cbn [forallb] in Hok. apply andb_prop in Hok as [Hc _].
+    rewrite <- !app_assoc. cbn [app].
+    eapply evals_seq_fail_b; [apply evals_str_ok, strip_prefix_app_some | apply skip_blanks; [exact Ha | exact Hb] | apply HT, Hc].
+  - apply evals_seq_fail, evals_str_fail, strip_prefix_app_none; assumption.
+Qed.
+
+Lemma nl_or_eoi_fail pos c r : okc c = true -> EV (PAlt NL PEoi) AtNon pos (c :: r) PFail.
+Proof. intro H. apply evals_alt_r; [apply nl_fail, H|]. apply (evals_of_ev l_grammar 1); [reflexivity|discriminate]. Qed.
+
+Lemma kw_list_fail2 pos line rest : cmd_ok2 line = true -> EV (PRef L_KW_LIST) AtNon pos (line ++ 10 :: rest) PFail.
+Proof.
+  intro H. unfold cmd_ok2 in H. apply andb_prop in H as [H Hkw]. apply andb_prop in H as [H He]. apply andb_prop in H as [Hok _].
+  apply ends_nonws_ok in He. apply negb_true_iff in Hkw. unfold starts_kw in Hkw.
+  apply orb_false_iff in Hkw as [Hkw Hdone]. apply orb_false_iff in Hkw as [Hkw Hfi]. apply orb_false_iff in Hkw as [Hkw Helse].
+  apply orb_false_iff in Hkw as [Hkw Hwhile]. apply orb_false_iff in Hkw as [Hkw Helif]. apply orb_false_iff in Hkw as [Hif Hfor].
+  ref_s.
+  apply evals_alt_r; [ref_s; apply evals_str_fail, nokw_fail; [exact Hif|reflexivity]|].
+  apply evals_alt_r; [ref_s; apply evals_str_fail, nokw_fail; [exact Hfor|reflexivity]|].
+  apply evals_alt_r; [ref_s; apply evals_str_fail, nokw_fail; [exact Helif|reflexivity]|].
+  apply evals_alt_r; [ref_nf; apply (kw_word_fail s_else NL); [reflexivity | intros; apply nl_fail; assumption | exact Helse | exact Hok | exact He]|].
+  apply evals_alt_r; [ref_s; apply (kw_word_fail s_fi (PAlt NL PEoi)); [reflexivity | apply nl_or_eoi_fail | exact Hfi | exact Hok | exact He]|].
+  apply evals_alt_r; [ref_s; apply evals_str_fail, nokw_fail; [exact Hwhile|reflexivity]|].
+  ref_s; apply (kw_word_fail s_done (PAlt NL PEoi)); [reflexivity | apply nl_or_eoi_fail | exact Hdone | exact Hok | exact He].
+Qed.
+
+Lemma cmd_parses2 pos line rest : cmd_ok2 line = true ->
+  EV (PRef L_CMD) AtNon pos (line ++ 10 :: rest)
+     (POk (S (pos + length line)) rest [Node L_CMD pos (S (pos + length line)) []]).
+Proof.
+  intro H0. pose proof H0 as H. unfold cmd_ok2 in H.
+  apply andb_prop in H as [H Hkw]. apply andb_prop in H as [H He]. apply andb_prop in H as [Hok Hs].
+  destruct line as [|c t]; [discriminate|].
+  cbn [starts_nonws] in Hs. apply negb_true_iff in Hs.
+  assert (Hb : is_blank c = false) by (apply blank_ws, Hs).
+  assert (He' : ends_ok (c :: t) = true) by (apply ends_nonws_ok, He).
+  cbn [forallb] in Hok. apply andb_prop in Hok as [Hc Hok].
+  eapply evals_ref_normal_ok; [reflexivity | reflexivity |].
+  apply evals_alt_l. ref_s.
+  change (@nil tree) with ([] ++ [] ++ ([] ++ [] ++ @nil tree))%list.
+  eapply evals_seq_ok.
+  - apply evals_not_ok. apply (kw_list_fail2 pos (c :: t) rest H0).
+  - apply skip_none. cbn. exact Hb.
+  - eapply evals_seq_ok.
+    + apply (line_chars c t pos rest Hc Hb Hok He').
+    + apply skip_none. reflexivity.
+    + apply nl_ok.
+Qed.
+
+Lemma cmd_ok2_facts line : cmd_ok2 line = true ->
+  forall rest, starts_blank (line ++ 10 :: rest) = false /\
+  strip_prefix s_if (line ++ 10 :: rest) = None /\ strip_prefix s_for (line ++ 10 :: rest) = None /\
+  strip_prefix s_while (line ++ 10 :: rest) = None.
+Proof.
+  intros H rest. unfold cmd_ok2 in H.
+  apply andb_prop in H as [H Hkw]. apply andb_prop in H as [H He]. apply andb_prop in H as [Hok Hs].
+  apply negb_true_iff in Hkw. unfold starts_kw in Hkw.
+  apply orb_false_iff in Hkw as [Hkw _]. apply orb_false_iff in Hkw as [Hkw _]. apply orb_false_iff in Hkw as [Hkw _].
+  apply orb_false_iff in Hkw as [Hkw Hwhile]. apply orb_false_iff in Hkw as [Hkw _]. apply orb_false_iff in Hkw as [Hif Hfor].
+  split; [|repeat split; apply nokw_fail; (assumption || reflexivity)].
+  destruct line as [|c t]; [discriminate|]. cbn. apply blank_ws. cbn in Hs. apply negb_true_iff in Hs. exact Hs.
+Qed.
+
+Lemma cmd_parsed2 pre line rest : cmd_ok2 line = true -> parsed (PRef L_CMD) pre (line ++ [10]) rest [cmd_t line].
+Proof.
+  intro H. eexists. split.
+  - replace ((line ++ [10]) ++ rest) with (line ++ 10 :: rest) by norm_app.
+    replace (length pre + length (line ++ [10%N]))%nat with (S (length pre + length line)) by len_eq.
+    apply cmd_parses2, H.
+  - cbn [map]. rewrite (annotate_node_eq pre (line ++ [10]) rest) by first [solve [reflexivity] | solve [len_eq]].
+    unfold cmd_t. cbn [map]. f_equal. f_equal. unfold cmd_ok2 in H.
+    apply andb_prop in H as [H _]. apply andb_prop in H as [H He]. apply andb_prop in H as [_ Hs].
+    apply trim_line; assumption.
+Qed.
+
+Lemma cmd_line_start2 line rest : cmd_ok2 line = true -> starts_blank ((line ++ [10]) ++ rest) = false.
+Proof. intro H. replace ((line ++ [10]) ++ rest) with (line ++ 10 :: rest) by norm_app. apply (cmd_ok2_facts line H rest). Qed.
+
+Lemma cmd_item_X2 line : cmd_ok2 line = true -> item_ok X_body (line ++ [10]) (cmd_t line).
+Proof.
+  intro H. split; [intro rest; apply cmd_line_start2, H|]. split; [destruct line; discriminate|].
+  intros pre rest. apply parsed_alt_l, cmd_parsed2, H.
+Qed.
+
+Lemma cmd_item_Y2 line : cmd_ok2 line = true -> item_ok Y_top (line ++ [10]) (cmd_t line).
+Proof.
+  intro H. split; [intro rest; apply cmd_line_start2, H|]. split; [destruct line; discriminate|].
+  intros pre rest. pose proof (cmd_line_start2 line rest H) as Hb.
+  assert (F := cmd_ok2_facts line H rest). destruct F as [_ [F1 [F2 F3]]].
+  replace (line ++ 10 :: rest) with ((line ++ [10]) ++ rest) in F1, F2, F3 by norm_app.
+  unfold Y_top.
+  apply parsed_alt_r; [apply exp_if_fails; assumption|].
+  apply parsed_alt_r; [apply exp_for_fails; assumption|].
+  apply parsed_alt_r; [apply exp_while_fails; assumption|].
+  apply cmd_parsed2, H.
+Qed.
+
+Lemma cmd_ok_2 line : cmd_ok line = true -> cmd_ok2 line = true.
+Proof.
+  unfold cmd_ok, cmd_ok2. intro H. apply andb_prop in H as [H Hk]. rewrite H. cbn [andb].
+  unfold strict_nokw, kw_prefixes in Hk. cbn [forallb] in Hk.
+  repeat (apply andb_prop in Hk as [? Hk]).
+  repeat match goal with X : negb _ = true |- _ => apply negb_true_iff in X end.
+  apply negb_true_iff. unfold starts_kw.
+  repeat match goal with X : has_prefix _ line = false |- _ => rewrite X end. cbn [orb].
+  destruct (str_eqb line s_else) eqn:E1; [apply str_eqb_eq in E1; subst line; discriminate|].
+  destruct (str_eqb line s_fi) eqn:E2; [apply str_eqb_eq in E2; subst line; discriminate|].
+  destruct (str_eqb line s_done) eqn:E3; [apply str_eqb_eq in E3; subst line; discriminate|].
+  reflexivity.
+Qed.
+
 (** ================= the fragment ================= *)
 Fixpoint fragI_block (b : block) : bool :=
   match b with
@@ -442,21 +757,19 @@ Fixpoint fragI_block (b : block) : bool :=
   end
 with fragI_stmt (s : stmt) : bool :=
   match s with
-  | SCmd ind line => wfp_ind ind && cmd_ok line
+  | SCmd ind line => wfp_ind ind && cmd_ok2 line
   | SBlank ws => wfp_ind ws
   | SBreak ind => wfp_ind ind
   | SCont ind => wfp_ind ind
-  | SIf ind false cond body rest => wfp_ind ind && cond_ok cond && nonempty_block body && fragI_block body && fragI_arms rest
-  | SWhile ind false cond body => wfp_ind ind && cond_ok cond && nonempty_block body && fragI_block body
-  | SFor ind false var words body => wfp_ind ind && wfp_var var && cond_ok words && nonempty_block body && fragI_block body
-  | _ => false
+  | SIf ind _ cond body rest => wfp_ind ind && cond_ok cond && nonempty_block body && fragI_block body && fragI_arms rest
+  | SWhile ind _ cond body => wfp_ind ind && cond_ok cond && nonempty_block body && fragI_block body
+  | SFor ind _ var words body => wfp_ind ind && wfp_var var && cond_ok words && nonempty_block body && fragI_block body
   end
 with fragI_arms (a : arms) : bool :=
   match a with
   | ANone ind => wfp_ind ind
   | AElse ind body ind_fi => wfp_ind ind && wfp_ind ind_fi && nonempty_block body && fragI_block body
-  | AElif ind false cond body rest => wfp_ind ind && cond_ok cond && nonempty_block body && fragI_block body && fragI_arms rest
-  | _ => false
+  | AElif ind _ cond body rest => wfp_ind ind && cond_ok cond && nonempty_block body && fragI_block body && fragI_arms rest
   end.
 
 Definition ind_of (s : stmt) : str :=
@@ -569,13 +882,13 @@ Proof. intros Hs [x [k ->]] Hl. apply trim_line; [exact Hs | apply ends_nonws_ap
 
 (** ---- the arms of an if ---- *)
 Definition arm_ind (a : arms) : str := match a with ANone i => i | AElse i _ _ => i | AElif i _ _ _ _ => i end.
-Definition elif_head_t (cond : str) := TNode L_IF_ELSEIF_HEAD (trim (s_elseif ++ cond ++ [10])) [TNode L_TEST cond []].
+Definition elif_head_t (sp : bool) (cond : str) := TNode L_IF_ELSEIF_HEAD (trim (s_elseif ++ cond ++ s_then sp)) [TNode L_TEST cond []].
 Fixpoint elifI (a : arms) : list itemT :=
   match a with
-  | AElif _ _ cond body r =>
-      ([], s_elseif ++ cond ++ [10] ++ render_block body ++ arm_ind r,
-       TNode L_IF_ELSEIF_BR (trim (s_elseif ++ cond ++ [10] ++ render_block body))
-         [elif_head_t cond; body_node (kids_of_block body) body]) :: elifI r
+  | AElif _ sp cond body r =>
+      ([], s_elseif ++ cond ++ s_then sp ++ render_block body ++ arm_ind r,
+       TNode L_IF_ELSEIF_BR (trim (s_elseif ++ cond ++ s_then sp ++ render_block body))
+         [elif_head_t sp cond; body_node (kids_of_block body) body]) :: elifI r
   | _ => []
   end.
 Fixpoint else_txt (a : arms) : str :=
@@ -593,10 +906,10 @@ Fixpoint else_tts (a : arms) : list ttree :=
   end.
 
 Lemma fragI_elif i sp c b r : fragI_arms (AElif i sp c b r) = true ->
-  sp = false /\ wfp_ind i = true /\ cond_ok c = true /\ nonempty_block b = true /\ fragI_block b = true /\ fragI_arms r = true.
+  True /\ wfp_ind i = true /\ cond_ok c = true /\ nonempty_block b = true /\ fragI_block b = true /\ fragI_arms r = true.
 Proof.
-  destruct sp; [discriminate|]. intro H.
-  change (fragI_arms (AElif i false c b r)) with (wfp_ind i && cond_ok c && nonempty_block b && fragI_block b && fragI_arms r) in H.
+  intro H.
+  change (fragI_arms (AElif i sp c b r)) with (wfp_ind i && cond_ok c && nonempty_block b && fragI_block b && fragI_arms r) in H.
   apply andb_prop in H as [H H5]. apply andb_prop in H as [H H4]. apply andb_prop in H as [H H3]. apply andb_prop in H as [H1 H2].
   repeat split; assumption.
 Qed.
@@ -607,8 +920,8 @@ Proof.
   - reflexivity.
   - change (core_arms (AElse i body j)) with (i ++ s_else ++ nl ++ render_block body ++ j ++ s_fi).
     cbn [arm_ind elifI catI else_txt]. unfold nl. napp.
-  - destruct (fragI_elif _ _ _ _ _ H) as [-> [_ [_ [_ [_ Hr]]]]].
-    change (core_arms (AElif i false c body r)) with (i ++ s_elseif ++ c ++ [10] ++ render_block body ++ core_arms r).
+  - destruct (fragI_elif _ _ _ _ _ H) as [_ [_ [_ [_ [_ Hr]]]]].
+    change (core_arms (AElif i sp c body r)) with (i ++ s_elseif ++ c ++ s_then sp ++ render_block body ++ core_arms r).
     rewrite (IH r Hr). cbn [arm_ind elifI catI else_txt it_ind it_txt fst snd]. napp.
 Qed.
 
@@ -617,19 +930,19 @@ Proof.
   fix IH 1. intros [i|i body j|i sp c body r] H.
   - reflexivity.
   - reflexivity.
-  - destruct (fragI_elif _ _ _ _ _ H) as [-> [_ [_ [_ [_ Hr]]]]].
+  - destruct (fragI_elif _ _ _ _ _ H) as [_ [_ [_ [_ [_ Hr]]]]].
     rewrite nodes_elif, (IH r Hr). reflexivity.
 Qed.
 
 Lemma elif_cat a : catI (elifI a) = match elifI a with [] => [] | x :: r => it_txt x ++ catI r end.
 Proof. destruct a; reflexivity. Qed.
 
-Lemma elif_headS cond : cond_ok cond = true ->
-  forall pre rest, parsedS (PRef L_IF_ELSEIF_HEAD) pre (s_elseif ++ cond ++ [10]) rest [elif_head_t cond].
+Lemma elif_headS sp cond : cond_ok cond = true ->
+  forall pre rest, parsedS (PRef L_IF_ELSEIF_HEAD) pre (s_elseif ++ cond ++ s_then sp) rest [elif_head_t sp cond].
 Proof.
   intros H pre rest.
-  apply (cond_headS L_IF_ELSEIF_HEAD L_KW_ELSEIF s_elseif (PAlt (PRef L_DUMMY_THEN) NL)); try reflexivity; [|exact H].
-  intros pos r. apply then_do_fail.
+  apply (cond_headS L_IF_ELSEIF_HEAD L_KW_ELSEIF s_elseif (PAlt (PRef L_DUMMY_THEN) NL) (s_then sp)); try reflexivity;
+    [apply then_altS | apply then_stop | apply then_sb | exact H].
 Qed.
 
 (** ================= induction over the syntax tree ================= *)
@@ -660,40 +973,40 @@ Proof.
     destruct (IHs Hs) as [SX SY]. destruct (IHr Hr) as [RX RY].
     cbn [itemsI]. split; constructor; assumption.
   - (* SCmd *) intros ind line H.
-    change (fragI_stmt (SCmd ind line)) with (wfp_ind ind && cmd_ok line) in H. apply andb_prop in H as [Hi Hl].
-    split; apply old_item; [exact Hi | apply cmd_item_X, Hl | exact Hi | apply cmd_item_Y, Hl].
+    change (fragI_stmt (SCmd ind line)) with (wfp_ind ind && cmd_ok2 line) in H. apply andb_prop in H as [Hi Hl].
+    split; apply old_item; [exact Hi | apply cmd_item_X2, Hl | exact Hi | apply cmd_item_Y2, Hl].
   - (* SBlank *) intros ws H. change (fragI_stmt (SBlank ws)) with (wfp_ind ws) in H.
     split; apply old_item; [exact H | apply blank_item_X | exact H | apply blank_item_Y].
   - (* SBreak *) intros ind H. change (fragI_stmt (SBreak ind)) with (wfp_ind ind) in H.
     split; apply old_item; [exact H | apply (cmd_item_X kw_break); reflexivity | exact H | apply (cmd_item_Y kw_break); reflexivity].
   - (* SCont *) intros ind H. change (fragI_stmt (SCont ind)) with (wfp_ind ind) in H.
     split; apply old_item; [exact H | apply (cmd_item_X kw_continue); reflexivity | exact H | apply (cmd_item_Y kw_continue); reflexivity].
-  - (* SIf *) intros ind sp cond body IHb a IHa H. destruct sp; [discriminate H|].
-    change (fragI_stmt (SIf ind false cond body a)) with (wfp_ind ind && cond_ok cond && nonempty_block body && fragI_block body && fragI_arms a) in H.
+  - (* SIf *) intros ind sp cond body IHb a IHa H.
+    change (fragI_stmt (SIf ind sp cond body a)) with (wfp_ind ind && cond_ok cond && nonempty_block body && fragI_block body && fragI_arms a) in H.
     apply andb_prop in H as [H Ha]. apply andb_prop in H as [H Hb]. apply andb_prop in H as [H Hne]. apply andb_prop in H as [Hi Hc].
     body_setup IHb Hb Hne body BX i1 t1 tt1 r Eit Hi1 Er Eb.
     destruct (IHa Ha) as [A1 [A2 [A3 [A4 [A5 A6]]]]].
-    set (S0 := SIf ind false cond body a).
-    set (ifbr := (s_if ++ cond ++ [10]) ++ i1 ++ t1 ++ catI r ++ arm_ind a).
-    set (t1tree := TNode L_IF_IF_BR (trim ((s_if ++ cond ++ [10]) ++ i1 ++ t1 ++ catI r))
-                     [if_head_t cond; TNode L_EXP_BODY (trim (t1 ++ catI r)) (tt1 :: map it_tt r)]).
-    assert (Ecore : core_stmt S0 = s_if ++ cond ++ [10] ++ render_block body ++ core_arms a) by reflexivity.
+    set (S0 := SIf ind sp cond body a).
+    set (ifbr := (s_if ++ cond ++ s_then sp) ++ i1 ++ t1 ++ catI r ++ arm_ind a).
+    set (t1tree := TNode L_IF_IF_BR (trim ((s_if ++ cond ++ s_then sp) ++ i1 ++ t1 ++ catI r))
+                     [if_head_t sp cond; TNode L_EXP_BODY (trim (t1 ++ catI r)) (tt1 :: map it_tt r)]).
+    assert (Ecore : core_stmt S0 = s_if ++ cond ++ s_then sp ++ render_block body ++ core_arms a) by reflexivity.
     assert (Etext : core_stmt S0 ++ nl = ifbr ++ catI (elifI a) ++ else_txt a ++ s_fi ++ [10]).
     { rewrite Ecore, (core_arms_split a Ha), Er. unfold ifbr, nl. napp. }
     assert (E1 : trim (core_stmt S0 ++ nl) = core_stmt S0).
     { apply (trim_core _ 105); [reflexivity | | reflexivity].
-      exists (s_if ++ cond ++ [10] ++ render_block body ++ arm_ind a ++ catI (elifI a) ++ else_txt a), [102].
+      exists (s_if ++ cond ++ s_then sp ++ render_block body ++ arm_ind a ++ catI (elifI a) ++ else_txt a), [102].
       rewrite Ecore, (core_arms_split a Ha). unfold s_fi. napp. }
-    assert (E2 : s_if ++ cond ++ s_then false ++ render_block body = (s_if ++ cond ++ [10]) ++ i1 ++ t1 ++ catI r).
+    assert (E2 : s_if ++ cond ++ s_then sp ++ render_block body = (s_if ++ cond ++ s_then sp) ++ i1 ++ t1 ++ catI r).
     { rewrite Er. unfold s_then. napp. }
     assert (Etree : tree_of_stmt S0 = TNode L_EXP_IF (trim (ifbr ++ catI (elifI a) ++ else_txt a ++ s_fi ++ [10]))
                                          (t1tree :: map it_tt (elifI a) ++ else_tts a)).
     { unfold S0. rewrite tree_if, (nodes_arms_split a Ha), Eb, E2. fold S0. rewrite <- Etext, E1. reflexivity. }
-    assert (Ekw : core_stmt S0 ++ nl = s_if ++ (cond ++ [10] ++ render_block body ++ core_arms a) ++ nl) by (rewrite Ecore; napp).
+    assert (Ekw : core_stmt S0 ++ nl = s_if ++ (cond ++ s_then sp ++ render_block body ++ core_arms a) ++ nl) by (rewrite Ecore; napp).
     assert (PP : forall pre rest, parsedS (PRef L_EXP_IF) pre (core_stmt S0 ++ nl) rest [tree_of_stmt S0]).
     { intros pre rest. rewrite Etree, Etext. apply ifS.
       - intro rest0. reflexivity.
-      - intros pre0 rest' HR. apply (brS L_IF_IF_BR L_IF_HEAD (s_if ++ cond ++ [10]) (if_head_t cond) i1 t1 tt1 r (arm_ind a) eq_refl eq_refl (if_headS cond Hc) A1 BX pre0 rest' HR).
+      - intros pre0 rest' HR. apply (brS L_IF_IF_BR L_IF_HEAD (s_if ++ cond ++ s_then sp) (if_head_t sp cond) i1 t1 tt1 r (arm_ind a) eq_refl eq_refl (if_headS sp cond Hc) A1 BX pre0 rest' HR).
       - rewrite <- app_assoc. apply A4.
       - intro pre0. rewrite elif_cat. apply (itemsS_rep0 EI Rx); [exact A2 | apply A3 | apply A5].
       - apply A5.
@@ -701,47 +1014,47 @@ Proof.
     unfold item_of. cbn [ind_of]. fold S0.
     split; (rewrite Ekw; apply compound_item; [exact Hi | reflexivity | discriminate |
             intros pre rest; first [apply in_X_if | apply in_Y_if]; rewrite <- Ekw; apply PP]).
-  - (* SFor *) intros ind sp var words body IHb H. destruct sp; [discriminate H|].
-    change (fragI_stmt (SFor ind false var words body)) with (wfp_ind ind && wfp_var var && cond_ok words && nonempty_block body && fragI_block body) in H.
+  - (* SFor *) intros ind sp var words body IHb H.
+    change (fragI_stmt (SFor ind sp var words body)) with (wfp_ind ind && wfp_var var && cond_ok words && nonempty_block body && fragI_block body) in H.
     apply andb_prop in H as [H Hb]. apply andb_prop in H as [H Hne]. apply andb_prop in H as [H Hw]. apply andb_prop in H as [Hi Hv].
     body_setup IHb Hb Hne body BX i1 t1 tt1 r Eit Hi1 Er Eb.
-    set (S0 := SFor ind false var words body).
-    pose proof (loopS L_EXP_FOR L_FOR_HEAD (s_for ++ var ++ s_in ++ words ++ [10]) (for_head_t var words) i1 t1 tt1 r ind
-                  eq_refl eq_refl (for_headS var words Hv Hw) (fun _ => eq_refl) Hi BX) as P.
-    assert (Ecore : core_stmt S0 = s_for ++ var ++ s_in ++ words ++ [10] ++ render_block body ++ ind ++ s_done) by reflexivity.
-    assert (Etext : core_stmt S0 ++ nl = (s_for ++ var ++ s_in ++ words ++ [10]) ++ i1 ++ (t1 ++ catI r ++ ind) ++ s_done ++ [10]).
+    set (S0 := SFor ind sp var words body).
+    pose proof (loopS L_EXP_FOR L_FOR_HEAD (s_for ++ var ++ s_in ++ words ++ s_do sp) (for_head_t sp var words) i1 t1 tt1 r ind
+                  eq_refl eq_refl (for_headS sp var words Hv Hw) (fun _ => eq_refl) Hi BX) as P.
+    assert (Ecore : core_stmt S0 = s_for ++ var ++ s_in ++ words ++ s_do sp ++ render_block body ++ ind ++ s_done) by reflexivity.
+    assert (Etext : core_stmt S0 ++ nl = (s_for ++ var ++ s_in ++ words ++ s_do sp) ++ i1 ++ (t1 ++ catI r ++ ind) ++ s_done ++ [10]).
     { rewrite Ecore, Er. unfold nl. napp. }
     assert (E1 : trim (core_stmt S0 ++ nl) = core_stmt S0).
     { apply (trim_core _ 101); [reflexivity | | reflexivity].
-      exists (s_for ++ var ++ s_in ++ words ++ [10] ++ render_block body ++ ind), [100; 111; 110].
+      exists (s_for ++ var ++ s_in ++ words ++ s_do sp ++ render_block body ++ ind), [100; 111; 110].
       rewrite Ecore. unfold s_done. napp. }
-    assert (Etree : tree_of_stmt S0 = TNode L_EXP_FOR (trim ((s_for ++ var ++ s_in ++ words ++ [10]) ++ i1 ++ (t1 ++ catI r ++ ind) ++ s_done ++ [10]))
-                                         [for_head_t var words; TNode L_EXP_BODY (trim (t1 ++ catI r)) (tt1 :: map it_tt r)]).
+    assert (Etree : tree_of_stmt S0 = TNode L_EXP_FOR (trim ((s_for ++ var ++ s_in ++ words ++ s_do sp) ++ i1 ++ (t1 ++ catI r ++ ind) ++ s_done ++ [10]))
+                                         [for_head_t sp var words; TNode L_EXP_BODY (trim (t1 ++ catI r)) (tt1 :: map it_tt r)]).
     { unfold S0. rewrite tree_for, Eb. fold S0. rewrite <- Etext, E1. reflexivity. }
-    assert (Ekw : core_stmt S0 ++ nl = s_for ++ (var ++ s_in ++ words ++ [10] ++ render_block body ++ ind ++ s_done) ++ nl) by (rewrite Ecore; napp).
+    assert (Ekw : core_stmt S0 ++ nl = s_for ++ (var ++ s_in ++ words ++ s_do sp ++ render_block body ++ ind ++ s_done) ++ nl) by (rewrite Ecore; napp).
     assert (PP : forall pre rest, parsedS (PRef L_EXP_FOR) pre (core_stmt S0 ++ nl) rest [tree_of_stmt S0]).
     { intros pre rest. rewrite Etree, Etext. apply P. }
     unfold item_of. cbn [ind_of]. fold S0.
     split; (rewrite Ekw; apply compound_item; [exact Hi | reflexivity | discriminate |
             intros pre rest; first [apply in_X_for | apply in_Y_for]; rewrite <- Ekw; apply PP]).
-  - (* SWhile *) intros ind sp cond body IHb H. destruct sp; [discriminate H|].
-    change (fragI_stmt (SWhile ind false cond body)) with (wfp_ind ind && cond_ok cond && nonempty_block body && fragI_block body) in H.
+  - (* SWhile *) intros ind sp cond body IHb H.
+    change (fragI_stmt (SWhile ind sp cond body)) with (wfp_ind ind && cond_ok cond && nonempty_block body && fragI_block body) in H.
     apply andb_prop in H as [H Hb]. apply andb_prop in H as [H Hne]. apply andb_prop in H as [Hi Hc].
     body_setup IHb Hb Hne body BX i1 t1 tt1 r Eit Hi1 Er Eb.
-    set (S0 := SWhile ind false cond body).
-    pose proof (loopS L_EXP_WHILE L_WHILE_HEAD (s_while ++ cond ++ [10]) (while_head_t cond) i1 t1 tt1 r ind
-                  eq_refl eq_refl (while_headS cond Hc) (fun _ => eq_refl) Hi BX) as P.
-    assert (Ecore : core_stmt S0 = s_while ++ cond ++ [10] ++ render_block body ++ ind ++ s_done) by reflexivity.
-    assert (Etext : core_stmt S0 ++ nl = (s_while ++ cond ++ [10]) ++ i1 ++ (t1 ++ catI r ++ ind) ++ s_done ++ [10]).
+    set (S0 := SWhile ind sp cond body).
+    pose proof (loopS L_EXP_WHILE L_WHILE_HEAD (s_while ++ cond ++ s_do sp) (while_head_t sp cond) i1 t1 tt1 r ind
+                  eq_refl eq_refl (while_headS sp cond Hc) (fun _ => eq_refl) Hi BX) as P.
+    assert (Ecore : core_stmt S0 = s_while ++ cond ++ s_do sp ++ render_block body ++ ind ++ s_done) by reflexivity.
+    assert (Etext : core_stmt S0 ++ nl = (s_while ++ cond ++ s_do sp) ++ i1 ++ (t1 ++ catI r ++ ind) ++ s_done ++ [10]).
     { rewrite Ecore, Er. unfold nl. napp. }
     assert (E1 : trim (core_stmt S0 ++ nl) = core_stmt S0).
     { apply (trim_core _ 101); [reflexivity | | reflexivity].
-      exists (s_while ++ cond ++ [10] ++ render_block body ++ ind), [100; 111; 110].
+      exists (s_while ++ cond ++ s_do sp ++ render_block body ++ ind), [100; 111; 110].
       rewrite Ecore. unfold s_done. napp. }
-    assert (Etree : tree_of_stmt S0 = TNode L_EXP_WHILE (trim ((s_while ++ cond ++ [10]) ++ i1 ++ (t1 ++ catI r ++ ind) ++ s_done ++ [10]))
-                                         [while_head_t cond; TNode L_EXP_BODY (trim (t1 ++ catI r)) (tt1 :: map it_tt r)]).
+    assert (Etree : tree_of_stmt S0 = TNode L_EXP_WHILE (trim ((s_while ++ cond ++ s_do sp) ++ i1 ++ (t1 ++ catI r ++ ind) ++ s_done ++ [10]))
+                                         [while_head_t sp cond; TNode L_EXP_BODY (trim (t1 ++ catI r)) (tt1 :: map it_tt r)]).
     { unfold S0. rewrite tree_while, Eb. fold S0. rewrite <- Etext, E1. reflexivity. }
-    assert (Ekw : core_stmt S0 ++ nl = s_while ++ (cond ++ [10] ++ render_block body ++ ind ++ s_done) ++ nl) by (rewrite Ecore; napp).
+    assert (Ekw : core_stmt S0 ++ nl = s_while ++ (cond ++ s_do sp ++ render_block body ++ ind ++ s_done) ++ nl) by (rewrite Ecore; napp).
     assert (PP : forall pre rest, parsedS (PRef L_EXP_WHILE) pre (core_stmt S0 ++ nl) rest [tree_of_stmt S0]).
     { intros pre rest. rewrite Etree, Etext. apply P. }
     unfold item_of. cbn [ind_of]. fold S0.
@@ -766,7 +1079,7 @@ Proof.
     apply optS_some.
     apply (brS L_IF_ELSE_BR L_KW_ELSE (s_else ++ [10]) (TNode L_KW_ELSE s_else []) i1 t1 tt1 r j eq_refl eq_refl kw_elseS Hj BX pre _ (stop_fi rest)).
   - (* AElif *) intros ind sp cond body IHb a IHa H.
-    destruct (fragI_elif _ _ _ _ _ H) as [-> [Hi [Hc [Hne [Hb Ha]]]]].
+    destruct (fragI_elif _ _ _ _ _ H) as [_ [Hi [Hc [Hne [Hb Ha]]]]].
     body_setup IHb Hb Hne body BX i1 t1 tt1 r Eit Hi1 Er Eb.
     destruct (IHa Ha) as [A1 [A2 [A3 [A4 [A5 A6]]]]].
     cbn [arm_ind elifI else_txt else_tts].
@@ -775,10 +1088,10 @@ Proof.
     { constructor; [|exact A2]. split; [reflexivity|]. cbn [it_ind it_txt it_tt fst snd].
       split; [intro rest; reflexivity|]. split; [discriminate|].
       intros pre rest HR. rewrite Eb, Er.
-      replace (s_elseif ++ cond ++ [10] ++ (i1 ++ t1 ++ catI r) ++ arm_ind a)
-        with ((s_elseif ++ cond ++ [10]) ++ i1 ++ t1 ++ catI r ++ arm_ind a) by napp.
-      replace (s_elseif ++ cond ++ [10] ++ i1 ++ t1 ++ catI r) with ((s_elseif ++ cond ++ [10]) ++ i1 ++ t1 ++ catI r) by napp.
-      apply (brS L_IF_ELSEIF_BR L_IF_ELSEIF_HEAD (s_elseif ++ cond ++ [10]) (elif_head_t cond) i1 t1 tt1 r (arm_ind a) eq_refl eq_refl (elif_headS cond Hc) A1 BX pre rest HR). }
+      replace (s_elseif ++ cond ++ s_then sp ++ (i1 ++ t1 ++ catI r) ++ arm_ind a)
+        with ((s_elseif ++ cond ++ s_then sp) ++ i1 ++ t1 ++ catI r ++ arm_ind a) by napp.
+      replace (s_elseif ++ cond ++ s_then sp ++ i1 ++ t1 ++ catI r) with ((s_elseif ++ cond ++ s_then sp) ++ i1 ++ t1 ++ catI r) by napp.
+      apply (brS L_IF_ELSEIF_BR L_IF_ELSEIF_HEAD (s_elseif ++ cond ++ s_then sp) (elif_head_t sp cond) i1 t1 tt1 r (arm_ind a) eq_refl eq_refl (elif_headS sp cond Hc) A1 BX pre rest HR). }
     split; [intro rest; split; [apply A4 | apply A3]|].
     split; [intro rest; cbn [catI it_ind it_txt fst snd app]; rewrite <- !app_assoc; apply stop_elseif|].
     split; [exact A5 | exact A6].
@@ -838,7 +1151,7 @@ Proof.
   - intros s IHs r IHr H. change (frag_block (BCons s r)) with (frag_stmt s && frag_block r) in H.
     apply andb_prop in H as [H1 H2]. change (fragI_block (BCons s r)) with (fragI_stmt s && fragI_block r).
     rewrite (IHs H1), (IHr H2). reflexivity.
-  - intros [|] line H; [exact H | discriminate H].
+  - intros [|] line H; [exact (cmd_ok_2 line H) | discriminate H].
   - intros ws H. discriminate H.
   - intros [|] H; [reflexivity | discriminate H].
   - intros [|] H; [reflexivity | discriminate H].
